@@ -377,6 +377,42 @@ def runE (A : Arith α) (C : Consts) (κ : Key → Key) (validate : Bool) (s : S
 def entryRate (A : Arith α) (κ : Key → Key) (validate : Bool) (s : State α) (pairs : Key) : Option α :=
   (entryKey κ validate pairs).map fun k => (observe A s k).2
 
+/-! ### The clock
+
+`CongressSample::sample_rate` reads `Instant::now()` on every call; when `now > next_interval_start` it
+sets `next_interval_start = now + interval` and calls `update_rates` — once, however many intervals
+have elapsed — *before* counting the entry. Times are natural numbers (nanoseconds since any epoch).
+`stride` is 1 in the code: the clock is read unconditionally. The parameter exists so that the variant
+that looks at the clock only every `stride`-th observation can be stated and refuted
+(`Props/C12.lean`, `c12_clock_stride_breaks`). -/
+
+structure Clocked (α : Type) where
+  st : State α
+  /-- `next_interval_start` -/
+  next : Nat
+  /-- `interval` -/
+  interval : Nat
+
+/-- does this call roll the interval over? -/
+def rollsOver (stride : Nat) (c : Clocked α) (now : Nat) : Bool :=
+  c.st.cur % stride == 0 && decide (c.next < now)
+
+/-- `sample_rate(group)` at time `now`; `order` = hash-map iteration order, used if the call rolls over -/
+def sampleRateAt (A : Arith α) (C : Consts) (stride : Nat) (order : List Key) (c : Clocked α) (now : Nat)
+    (key : Key) : Clocked α × α :=
+  let c' := if rollsOver stride c now then
+      { c with next := now + c.interval, st := updateRates A C order c.st } else c
+  ({ c' with st := (observe A c'.st key).1 }, (observe A c'.st key).2)
+
+/-- a timed history: `(now, key, order)` per entry -/
+def runClocked (A : Arith α) (C : Consts) (stride : Nat) (c : Clocked α) :
+    List (Nat × Key × List Key) → Clocked α × List α
+  | [] => (c, [])
+  | (now, key, order) :: rest =>
+    let r := sampleRateAt A C stride order c now key
+    let rr := runClocked A C stride r.1 rest
+    (rr.1, r.2 :: rr.2)
+
 /-! ### binary32 instance -/
 
 /-- a binary32 value: a dyadic exactly representable as a normal binary32 (or zero), or `bad` when
